@@ -1,6 +1,9 @@
 package main
 
 import (
+	"runtime"
+	"sync"
+	"sync/atomic"
 	"bytes"
 	"math/rand"
 	"runtime/debug"
@@ -63,6 +66,38 @@ func runC19(seed int64, count int, replay string) {
 		g := p.Get(2000)
 		gi, fresh := id(g)
 		emit("C19 get 2000 - %d %d %d", gi, cap(*g), fresh)
+	}
+	// exclusive ownership under concurrent use: several goroutines get, hold and return buffers of a few classes;
+	// a buffer that is handed to a second holder while the first still holds it is a double issue
+	{
+		emit("#case concurrent-owners")
+		p := pbytes.New(65536)
+		var held sync.Map // backing array -> holder
+		var gets, double int64
+		var wg sync.WaitGroup
+		for g := 0; g < 8; g++ {
+			wg.Add(1)
+			go func(g int) {
+				defer wg.Done()
+				for i := 0; i < 6000; i++ {
+					size := []int{16, 16, 1024, 1500, 65536}[(g+i)%5]
+					b := p.Get(size)
+					ptr := unsafe.Pointer(unsafe.SliceData((*b)[:cap(*b)]))
+					atomic.AddInt64(&gets, 1)
+					if _, loaded := held.LoadOrStore(ptr, g); loaded {
+						atomic.AddInt64(&double, 1)
+					} else {
+						if i%64 == 0 {
+							runtime.Gosched()
+						}
+						held.Delete(ptr)
+					}
+					p.Put(b)
+				}
+			}(g)
+		}
+		wg.Wait()
+		emit("C19 conc 8 %d %d", gets, double)
 	}
 	for h := 0; h < count; h++ {
 		max := c19Maxes[rng.Intn(len(c19Maxes))]
